@@ -110,6 +110,59 @@ def expand_flows(flows, limit=64, deep=False):
     return out
 
 
+def cond_leaves(ck, acc):
+    """atoms of a canonical condition key (poly.Norm.cond)"""
+    if ck[0] == "not":
+        cond_leaves(ck[1], acc)
+    elif ck[0] in ("and", "or", "iff", "ite"):
+        for x in ck[1:]:
+            cond_leaves(x, acc)
+    elif ck[0] not in ("true", "false"):
+        acc.add(ck)
+    return acc
+
+
+def cond_eval(ck, env):
+    t = ck[0]
+    if t == "true":
+        return True
+    if t == "false":
+        return False
+    if t == "not":
+        return not cond_eval(ck[1], env)
+    if t == "and":
+        return all(cond_eval(x, env) for x in ck[1:])
+    if t == "or":
+        return any(cond_eval(x, env) for x in ck[1:])
+    if t == "iff":
+        return cond_eval(ck[1], env) == cond_eval(ck[2], env)
+    if t == "ite":
+        return cond_eval(ck[2], env) if cond_eval(ck[1], env) else cond_eval(ck[3], env)
+    return env[ck]
+
+
+def same_boolean_function(N, pcs_a, pcs_b, limit=12):
+    """do two disjunctions of path conditions (lists of lists of condition terms) denote the same boolean function of their atoms?
+    returns (verdict, witness row or reason)"""
+    import itertools
+    ka = [[N.cond(c) for c in pc] for pc in pcs_a]
+    kb = [[N.cond(c) for c in pc] for pc in pcs_b]
+    atoms = set()
+    for ks in ka + kb:
+        for ck in ks:
+            cond_leaves(ck, atoms)
+    atoms = sorted(atoms, key=repr)
+    if len(atoms) > limit:
+        return False, "too many atoms (%d)" % len(atoms)
+    for vals in itertools.product((False, True), repeat=len(atoms)):
+        env = dict(zip(atoms, vals))
+        va = any(all(cond_eval(ck, env) for ck in ks) for ks in ka)
+        vb = any(all(cond_eval(ck, env) for ck in ks) for ks in kb)
+        if va != vb:
+            return False, {str(a)[:60]: int(b) for a, b in env.items()}
+    return True, "%d rows" % 2 ** len(atoms)
+
+
 def under_pc(pc, v):
     """(pc', v') with every condition and the value simplified under the conditions that precede it on the path"""
     facts, newpc = [], []
